@@ -53,8 +53,20 @@ Fixpoint blen_go (l : list Z) (acc : Z) : Z :=
 Definition blen (l : list Z) : Z := blen_go l 0.          (* = zlen l *)
 
 (* the bytes from absolute position pos on (b'' beyond EOF) *)
-Fixpoint skipz (bs : list Z) (pos : Z) : list Z :=
-  if pos <=? 0 then bs else match bs with [] => [] | _ :: r => skipz r (pos - 1) end.
+(* dropping p elements by recursion on the BINARY position: no arithmetic per element, at most
+   min(p, |l|) + log p steps, so an offset of 2^63 taken from a corrupt header costs nothing *)
+Fixpoint skip_pos (p : positive) (l : list Z) {struct p} : list Z :=
+  match l with
+  | [] => []
+  | _ :: r =>
+      match p with
+      | xH => r
+      | xO q => skip_pos q (skip_pos q l)
+      | xI q => skip_pos q (skip_pos q r)
+      end
+  end.
+Definition skipz (bs : list Z) (pos : Z) : list Z :=
+  match pos with Zpos p => skip_pos p bs | _ => bs end.
 Definition rest_at (bs : list Z) (pos : Z) : list Z := skipz bs pos.
 
 (* stream.read(n) on what is left: at most n bytes *)
@@ -140,12 +152,14 @@ Fixpoint cstr_scan (fuel : nat) (bs : list Z) (acc : Z) : option (list Z) * Z :=
       end
   end.
 
-Definition cstring_at (bs : list Z) (pos : Z) : M (option (list Z)) := fun c =>
+(* [fuel] bounds the number of chunks: any fuel > |bs| / 64 is enough; callers pass the |bs| + 1
+   they keep around (computing a length here would cost |bs| steps per string) *)
+Definition cstring_at (fuel : nat) (bs : list Z) (pos : Z) : M (option (list Z)) := fun c =>
   match seek_error pos with
-  | Some t => (Err (EPy t), c)
+  | Some t => (Err (EPy t), tick_str c 0)      (* the call is counted, its seek raised *)
   | None =>
       let rest := rest_at bs pos in
-      let '(s, n) := cstr_scan (S (length rest)) rest 0 in
+      let '(s, n) := cstr_scan fuel rest 0 in
       (Ok s, tick_str c n)
   end.
 
